@@ -179,6 +179,9 @@ def gen_base(rng, sid, family="base", n=None, q=None, refresh="auto", pop=None, 
             if rng.random() < 0.3:
                 w["chunks"] = True   # the text and its line feed arrive in two Write calls
             progs[c].insert(pos, w)
+            if rng.random() < 0.2:
+                # the same line once more, straight away (a log line that repeats itself: with idle bars the two frames are identical)
+                progs[c].insert(pos + 1, {"op": "write", "line": w["line"]})
             nw += 1
     if fault:
         victim = rng.choice([o for o in progs[0] if o["op"] == "add"])
@@ -209,9 +212,12 @@ def gen_base(rng, sid, family="base", n=None, q=None, refresh="auto", pop=None, 
         # so only the final render can carry them
         for b in bars:
             progs[0].append({"op": "barwait", "b": b})
-        for _ in range(rng.randint(1, 2)):
+        same = rng.random() < 0.5   # the same line again and again: with every bar at rest consecutive frames are identical
+        for _ in range(rng.randint(1, 3)):
             progs[0].append({"op": "write", "line": "T|tail|%d" % nw})
-            nw += 1
+            if not same:
+                nw += 1
+        nw += 1
     # the main client waits, then reads the final state of every bar and makes late calls
     progs[0].append({"op": "wait"})
     for b in bars:
@@ -219,6 +225,8 @@ def gen_base(rng, sid, family="base", n=None, q=None, refresh="auto", pop=None, 
     if rng.random() < 0.5:
         progs[0].append({"op": "add", "b": "b%d" % (n + 1), "total": 1})
         progs[0].append({"op": "write", "line": "T|late|%d" % nw})
+        if rng.random() < 0.5:
+            progs[0].append({"op": "write", "line": "", "empty": True})   # Write(nil) after Wait is a late Write like any other
         b = rng.choice(bars)
         progs[0].append({"op": "incr", "b": b, "n": 1})
         progs[0].append({"op": "abort", "b": b, "flag": False})
@@ -244,7 +252,7 @@ def gen_lin(rng, sid):
     """k client goroutines hammer one bar (and read it) while it is rendered, completes and exits."""
     k = rng.randint(2, 4)
     total = rng.choice([0, 0, 3, 5, 8])
-    cfg = {"q": -1, "refresh": rng.choice(["auto", "auto", "none"]), "pop": False, "notifier": False, "width": 120,
+    cfg = {"q": -1, "refresh": rng.choice(["auto", "auto", "none", "manual"]), "pop": False, "notifier": False, "width": 120,
            "delay": False, "outfault": 0, "ctx": False}
     progs = [[] for _ in range(k)]
     # 0-2 decorators; moving-average ones (every sample must reach each of them) and one carrying the library's
@@ -263,7 +271,10 @@ def gen_lin(rng, sid):
         for _ in range(rng.randint(2, 5)):
             r = rng.random()
             if r < 0.4:
-                progs[c].append({"op": rng.choice(["incr", "incr", "ewma"]), "b": "b1", "n": rng.randint(1, 2)})
+                progs[c].append({"op": rng.choice(["incr", "ewma", "ewma"] if any(d["ewma"] for d in pre) else ["incr", "incr", "ewma"]),
+                                 "b": "b1", "n": rng.randint(1, 2)})
+                if cfg["refresh"] == "manual" and rng.random() < 0.5:
+                    progs[c].append({"op": "refresh"})
             elif r < 0.5:
                 progs[c].append({"op": "getcur", "b": "b1"})
             elif r < 0.6:
@@ -288,6 +299,11 @@ def gen_lin(rng, sid):
             if rng.random() < 0.6:
                 pos = rng.randint(1 if c == 0 else 0, len(progs[c]))
                 progs[c][pos:pos] = [{"op": "avgadjust", "b": "b1", "n": rng.randint(0, 5)}, {"op": "pause"}]
+    if cfg["refresh"] == "manual":
+        for c in range(k):
+            for _ in range(2):
+                progs[c].append({"op": "refresh"})
+                progs[c].append({"op": "pause"})
     progs[0].append({"op": "abort", "b": "b1", "flag": False})
     progs[0].append({"op": "wait"})
     for o in ("getcur", "getcomp", "getab"):
